@@ -1,3 +1,6 @@
 pub mod c08;
 pub mod c09;
 pub mod c10;
+pub mod c11;
+pub mod c12;
+pub mod c16;
